@@ -485,6 +485,76 @@ w('C17', 'BENIGN: root fold as an indexed loop', '',
 w('C17', 'BENIGN: node hash with capacity-clipped append', '',
   (OT, '\t\tdata = sha3.Sum256(append(append(buf, b...), a...))', '\t\tdata = sha3.Sum256(append(b[:len(b):len(b)], a...))'))
 
+
+VS='x/opchild/keeper/val_state_change.go'
+VK='x/opchild/keeper/validator.go'
+EC='x/opchild/keeper/executor_change.go'
+PK='x/opchild/keeper/params.go'
+AB='x/opchild/abci.go'
+GK='x/opchild/keeper/genesis.go'
+# ---------------- C13
+w('C13', 'AddValidator drops the consensus-key index entry', 'C13.R2',
+  (CM, '\tif err = ms.SetValidatorByConsAddr(ctx, validator); err != nil {\n\t\treturn nil, err\n\t}\n\n\tsdkCtx.EventManager().EmitEvents(sdk.Events{\n\t\tsdk.NewEvent(\n\t\t\ttypes.EventTypeAddValidator,', '\tsdkCtx.EventManager().EmitEvents(sdk.Events{\n\t\tsdk.NewEvent(\n\t\t\ttypes.EventTypeAddValidator,'))
+w('C13', 'AddValidator drops the consensus-key uniqueness check', 'C13.R3',
+  (CM, '\tif _, found := ms.GetValidatorByConsAddr(ctx, sdk.GetConsAddress(pk)); found {\n\t\treturn nil, types.ErrValidatorPubKeyExists\n\t}\n', ''))
+w('C13', 'AddValidator drops the operator uniqueness check', 'C13.R3',
+  (CM, '\tif _, found := ms.GetValidator(ctx, valAddr); found {\n\t\treturn nil, types.ErrValidatorOwnerExists\n\t}\n', ''))
+w('C13', 'AddValidator capacity check off by one (<= -> <)', 'C13.R3',
+  (CM, '\tif int(numMaxValidators) <= len(allValidators) {', '\tif int(numMaxValidators) < len(allValidators) {'))
+w('C13', 'removal pass drops DeleteLastValidatorPower', 'C13.R4',
+  (VS, '\t\tif err := k.DeleteLastValidatorPower(ctx, valAddr); err != nil {\n\t\t\treturn nil, err\n\t\t}\n', ''))
+w('C13', 'power update appended without recording the last power', 'C13.R4',
+  (VS, '\t\t\tif err := k.SetLastValidatorPower(ctx, valAddr, newPower); err != nil {\n\t\t\t\treturn nil, err\n\t\t\t}\n', '\t\t\t_ = valAddr\n'))
+w('C13', 'bonded validators are not deleted from the last map', 'C13.R4',
+  (VS, '\t\tdelete(last, validator.GetOperator())\n', ''))
+w('C13', 'removal pass tolerates positive power', 'C13.R4',
+  (VS, '\t\tif validator.ConsPower > 0 {\n\t\t\treturn nil, errors.New("deleting validator cannot have positive power")\n\t\t}\n', ''),
+  (VS, '\t"errors"\n', ''))
+w('C13', 'last power recorded for another validator (first in the list)', 'C13.R4',
+  (VS, 'if err := k.SetLastValidatorPower(ctx, valAddr, newPower); err != nil {', 'if err := k.SetLastValidatorPower(ctx, sdk.ValAddress(validators[0].GetOperator()), newPower); err != nil {'))
+w('C13', '(repaired tree) purge of never-bonded zero-power records removed', 'C13.R5',
+  (VS, '\t\t\tif !found {\n\t\t\t\tif err := k.RemoveValidator(ctx, valAddr); err != nil {\n\t\t\t\t\treturn nil, err\n\t\t\t\t}\n\t\t\t}\n', ''))
+w('C13', 'RemoveValidator keeps the consensus-key index entry', 'C13.R2',
+  (VK, '\tif err := k.ValidatorsByConsAddr.Remove(ctx, valConsAddr); err != nil {\n\t\treturn err\n\t}\n', '\t_ = valConsAddr\n'))
+w('C13', 'SetParams capacity check dropped', 'C13.R6',
+  (PK, '\tif int(params.MaxValidators) < len(allValidators) {\n\t\treturn types.ErrMaxValidatorsLowerThanCurrent\n\t}\n', '\t_ = allValidators\n'))
+w('C13', 'exported genesis replays the record power instead of the last power', 'C13.R7',
+  (GK, '\t\t\tupdate.Power = lv.Power // keep the next-val-set offset, use the last power for the first block\n', ''))
+w('C13', 'UpdateOracle deletes a validator record directly (new remover)', 'C13.R1',
+  (CM, '\t// config check\n', '\t_ = ms.Validators.Remove(ctx, []byte(req.Sender))\n\t// config check\n'))
+w('C13', 'BENIGN: zero-power branch restructured (found computed after the check)', '',
+  (VS, '\t\t\tif !found {\n\t\t\t\tif err := k.RemoveValidator(ctx, valAddr); err != nil {\n\t\t\t\t\treturn nil, err\n\t\t\t\t}\n\t\t\t}\n\n\t\t\tcontinue', '\t\t\tif found {\n\t\t\t\tcontinue\n\t\t\t}\n\t\t\tif err := k.RemoveValidator(ctx, valAddr); err != nil {\n\t\t\t\treturn nil, err\n\t\t\t}\n\t\t\tcontinue'))
+
+# ---------------- C14
+w('C14', 'plan looked up at height+1', 'C14.R2',
+  (AB, 'k.ExecutorChangePlans[uint64(height)]', 'k.ExecutorChangePlans[uint64(height)+1]'))
+w('C14', 'validator updates computed before the plan is applied', 'C14.R2',
+  (AB, '\tif plan, found := k.ExecutorChangePlans[uint64(height)]; found { //nolint:gosec\n\t\terr := k.ChangeExecutor(ctx, plan)\n\t\tif err != nil {\n\t\t\treturn nil, err\n\t\t}\n\t}\n\n\treturn k.BlockValidatorUpdates(ctx)', '\tupdates, uerr := k.BlockValidatorUpdates(ctx)\n\tif plan, found := k.ExecutorChangePlans[uint64(height)]; found { //nolint:gosec\n\t\terr := k.ChangeExecutor(ctx, plan)\n\t\tif err != nil {\n\t\t\treturn nil, err\n\t\t}\n\t}\n\n\treturn updates, uerr'))
+w('C14', 'ChangeExecutor error swallowed', 'C14.R2',
+  (AB, '\t\terr := k.ChangeExecutor(ctx, plan)\n\t\tif err != nil {\n\t\t\treturn nil, err\n\t\t}', '\t\t_ = k.ChangeExecutor(ctx, plan)'))
+w('C14', 'plan registered before the pubkey is validated', 'C14.R1',
+  (EC, '\tvar pubKey cryptotypes.PubKey\n', '\tk.ExecutorChangePlans[height] = types.ExecutorChangePlan{ProposalID: proposalID, Height: height}\n\tvar pubKey cryptotypes.PubKey\n'))
+w('C14', 'duplicate height check removed', 'C14.R1',
+  (EC, '\tif _, found := k.ExecutorChangePlans[height]; found {\n\t\treturn types.ErrAlreadyRegisteredHeight\n\t}\n', ''))
+w('C14', 'executor addresses not validated at registration', 'C14.R1',
+  (EC, '\t\t_, err = k.addressCodec.StringToBytes(nextExecutor)\n\t\tif err != nil {\n\t\t\treturn err\n\t\t}', '\t\t_ = nextExecutor'))
+w('C14', 'zero proposal id accepted', 'C14.R1',
+  (EC, '\tif proposalID <= 0 {\n\t\treturn errorsmod.Wrap(types.ErrInvalidExecutorChangePlan, "invalid proposal id")\n\t}\n', ''))
+w('C14', 'walk stops after the first validator', 'C14.R3',
+  (EC, '\t\terr = k.Validators.Set(ctx, key, validator)\n\t\treturn false, err', '\t\terr = k.Validators.Set(ctx, key, validator)\n\t\treturn true, err'))
+w('C14', 'walk halves the power instead of zeroing it', 'C14.R3',
+  (EC, '\t\tvalidator.ConsPower = 0\n', '\t\tvalidator.ConsPower = validator.ConsPower / 2\n'))
+w('C14', 'plan validator not indexed by consensus key', 'C14.R3',
+  (EC, '\tif err = k.SetValidatorByConsAddr(ctx, plan.NextValidator); err != nil {\n\t\treturn err\n\t}\n', ''))
+w('C14', 'executor list appended instead of replaced', 'C14.R3',
+  (EC, '\tparams.BridgeExecutors = plan.NextExecutors\n', '\tparams.BridgeExecutors = append(params.BridgeExecutors, plan.NextExecutors...)\n'))
+w('C14', '(repaired tree) ChangeExecutor goes through SetParams again', 'C14.R4',
+  (EC, '\tif err := k.Params.Set(ctx, params); err != nil {', '\tif err := k.SetParams(ctx, params); err != nil {'))
+w('C14', 'ChangeExecutor rejects plans when the validator cap is reached', 'C14.R4',
+  (EC, '\tif err := k.SetValidator(ctx, plan.NextValidator); err != nil {', '\tif vs, _ := k.GetAllValidators(ctx); len(vs) > 100 {\n\t\treturn types.ErrMaxValidatorsExceeded\n\t}\n\tif err := k.SetValidator(ctx, plan.NextValidator); err != nil {'))
+w('C14', 'BENIGN: plan lookup hoisted into a local before the if', '',
+  (AB, '\tif plan, found := k.ExecutorChangePlans[uint64(height)]; found { //nolint:gosec\n', '\th := uint64(height) //nolint:gosec\n\tplan, found := k.ExecutorChangePlans[h]\n\tif found {\n'))
+
 #@@MORE@@
 for p,l in W.items():
     json.dump(l, open(os.path.join(HERE,p+'.json'),'w'), indent=1)
